@@ -1,8 +1,8 @@
 INIT Init
 NEXT Next
 CONSTANTS
-  MaxN = 4
+  MaxN = 5
   Names = {"a", "b"}
-  MaxDepth = 3
+  MaxDepth = 4
 INVARIANT Emit
 CHECK_DEADLOCK FALSE
